@@ -369,10 +369,35 @@ func (x *execCtx) relRows(r *relInfo) [][]Value {
 	return out
 }
 
-// joinFrom extends the partial rows with one FROM item and its joins.
-func (x *execCtx) joinFrom(rows [][]Value, it *fromItem, outer *env) ([][]Value, error) {
+// lookupSlots evaluates a unique-key access path. ok is false if the path
+// cannot be used (the caller then scans); a NULL key matches nothing.
+func (x *execCtx) lookupSlots(t *table, l *keyLookup, outer *env) ([]*slot, error) {
+	key := make([]Value, len(l.keys))
+	en := &env{parent: outer}
+	for i, e := range l.keys {
+		v, err := x.eval(e, en)
+		if err != nil {
+			return nil, err
+		}
+		if v == nil {
+			return nil, nil
+		}
+		key[i] = v
+	}
+	return t.candidates(l.u, key), nil
+}
+
+// joinFrom extends the partial rows with one FROM item and its joins. first
+// is an optional pre-selected row set for the item itself.
+func (x *execCtx) joinFrom(rows [][]Value, it *fromItem, outer *env, first [][]Value) ([][]Value, error) {
 	cross := func(rows [][]Value, r *relInfo, on expr, left bool) ([][]Value, error) {
-		rrows := x.relRows(r)
+		rrows := first
+		if rrows == nil || r != it.rel {
+			rrows = x.relRows(r)
+		}
+		if len(rows) == 1 && r.offset == 0 && on == nil && len(r.cols) == len(rows[0]) {
+			return rrows, nil // single relation: its rows are the scope rows (never mutated)
+		}
 		out := make([][]Value, 0, len(rows)*len(rrows))
 		en := &env{parent: outer}
 		for _, base := range rows {
@@ -491,14 +516,27 @@ func (x *execCtx) runSelect(s *selectStmt, outer *env, ordered bool) ([][]Value,
 	}
 	rows := [][]Value{make([]Value, s.width)}
 	var err error
-	for _, it := range s.from {
-		if rows, err = x.joinFrom(rows, it, outer); err != nil {
+	for i, it := range s.from {
+		var first [][]Value
+		if i == 0 && s.lookup != nil {
+			slots, err := x.lookupSlots(it.rel.tbl, s.lookup, outer)
+			if err != nil {
+				return nil, err
+			}
+			first = [][]Value{}
+			for _, sl := range slots {
+				if v := sl.visible(x.tx); v != nil && !sl.dead {
+					first = append(first, v)
+				}
+			}
+		}
+		if rows, err = x.joinFrom(rows, it, outer, first); err != nil {
 			return nil, err
 		}
 	}
 	en := &env{parent: outer}
 	if s.where != nil {
-		kept := rows[:0]
+		kept := make([][]Value, 0, len(rows))
 		for _, r := range rows {
 			en.row = r
 			v, err := x.eval(s.where, en)
